@@ -78,7 +78,7 @@ fn o_case(tier: Tier) -> impl Strategy<Value = OCase> {
                 _ => {
                     // j/(n-1) grid: (n-1) q is an integer in exact arithmetic
                     let n = x.iter().filter(|v| v.is_some()).count();
-                    if n >= 2 { ((qs as u32) % (n as u32), (n - 1) as u32, (qs % 3) as i8 - 1) } else { (1, 2, 0) }
+                    if n >= 2 { ((qs as u32) % (n as u32), (n - 1) as u32, (qs % 5) as i8 - 2) } else { (1, 2, 0) }
                 },
             };
             OCase {
@@ -98,7 +98,8 @@ fn o_case(tier: Tier) -> impl Strategy<Value = OCase> {
 fn q_of(c: &OCase, n: usize) -> f64 {
     let mut q = c.qa as f64 / c.qb as f64;
     if c.nudge != 0 && n >= 2 {
-        q += c.nudge as f64 * 1e-13 / (n - 1) as f64;
+        // +-1: 1e-13, +-2: 1e-11 away from the grid point (far outside the rounding distance of 5.5)
+        q += c.nudge.signum() as f64 * if c.nudge.abs() >= 2 { 1e-11 } else { 1e-13 } / (n - 1) as f64;
     }
     q.clamp(0.0, 1.0)
 }
@@ -168,7 +169,9 @@ fn check_quantile(c: &OCase, obs: &mut Obs) -> CheckResult {
         // exact rational position (n-1) q
         let pos = (n - 1) as f64 * q;
         let r_int = pos.round();
-        let near_int = (pos - r_int).abs() < 1e-9;
+        // "within rounding distance of an integer" (DESIGN 5.5): the library forms (n-1) * q, or
+        // (n-1) * (1-q) for q > 0.5, in f64; both carry at most a few units of roundoff of n-1
+        let near_int = (pos - r_int).abs() <= 8.0 * U * (n - 1).max(1) as f64;
         let mut accept: Vec<(f64, f64)> = vec![];
         let pair = |i: usize, j: usize, frac: f64| -> (f64, f64) {
             let (a, b) = (s[i], s[j]);
@@ -467,7 +470,7 @@ fn main() {
     let _ = Fail { sig: String::new(), detail: String::new() };
     let mut p = Property::new(
         "C12",
-        "cases = (tie-heavy series of length 0..=24 (thorough ..=80) with nulls in any position, incl. the explicit class 'exactly one valid element, not first'; encodings f64 / Option<f64> / i32; q = a/b with b <= 12, or j/(n-1) +- 1e-13/(n-1) (index within rounding distance of an integer), or 0, 1, 0.5; k in 0..=len+1; all flag combinations; scores from the series, between values, or null; input backend); oracle = sort-based order statistics on the non-null elements: quantile per DESIGN 5.5 (either neighbour accepted within 1e-9 of an integer index; linear within rounding, others exact), percentile-of-score from #less/#equal/#valid, average ranks, and a validity predicate for partitions (exactly k+1 entries; the non-padding entries are the min(k+1,n) extreme valid values as a multiset / in order if sorted; padding only after them; arg form: distinct in-range indices of non-null elements). \
+        "cases = (tie-heavy series of length 0..=24 (thorough ..=80) with nulls in any position, incl. the explicit class 'exactly one valid element, not first'; encodings f64 / Option<f64> / i32; q = a/b with b <= 12, or j/(n-1) exactly (index within rounding distance of an integer) and nudged by +-1e-13 / +-1e-11 (off the grid), or 0, 1, 0.5; k in 0..=len+1; all flag combinations; scores from the series, between values, or null; input backend); oracle = sort-based order statistics on the non-null elements: quantile per DESIGN 5.5 (either neighbour accepted only within 8 u (n-1) of an integer index; linear within rounding, others exact), percentile-of-score from #less/#equal/#valid, average ranks, and a validity predicate for partitions (exactly k+1 entries; the non-padding entries are the min(k+1,n) extreme valid values as a multiset / in order if sorted; padding only after them; arg form: distinct in-range indices of non-null elements). \
          Non-trivial = >= 3 valid elements, a null in first position, and a tie; distinct = distinct serialised cases",
     )
     .assume("canonical nulls only (DESIGN 5.4); partitions run on nullable element types (5.7)");
